@@ -494,6 +494,16 @@ impl RenderContext {
 }
 
 impl RenderContext {
+    /// Whether the frame can be rendered by a fire-and-forget pool task.
+    ///
+    /// A frame that takes its LF from an LF frame, or patches from a reference frame, waits for that frame's
+    /// render while it is being rendered itself. Such a wait must not happen inside a pool task: the task may
+    /// have been picked up by the worker whose suspended scope is the awaited render, which then never ends.
+    fn can_render_in_background(frame: &IndexedFrame) -> bool {
+        let flags = frame.header().flags;
+        !flags.use_lf_frame() && !flags.patches()
+    }
+
     fn do_render<S: Sample>(
         frame: &IndexedFrame,
         reference_frames: &ReferenceFrames<S>,
@@ -503,18 +513,22 @@ impl RenderContext {
         pool: &JxlThreadPool,
     ) -> FrameRender<S> {
         if let Some(lf) = &reference_frames.lf {
-            tracing::trace!(idx = lf.frame.idx, "Spawn LF frame renderer");
-            let lf_handle = Arc::clone(&lf.image);
-            pool.spawn(move || {
-                lf_handle.run(image_region);
-            });
+            if Self::can_render_in_background(&lf.frame) {
+                tracing::trace!(idx = lf.frame.idx, "Spawn LF frame renderer");
+                let lf_handle = Arc::clone(&lf.image);
+                pool.spawn(move || {
+                    lf_handle.run(image_region);
+                });
+            }
         }
         for grid in reference_frames.refs.iter().flatten() {
-            tracing::trace!(idx = grid.frame.idx, "Spawn reference frame renderer");
-            let ref_handle = Arc::clone(&grid.image);
-            pool.spawn(move || {
-                ref_handle.run(image_region);
-            });
+            if Self::can_render_in_background(&grid.frame) {
+                tracing::trace!(idx = grid.frame.idx, "Spawn reference frame renderer");
+                let ref_handle = Arc::clone(&grid.image);
+                pool.spawn(move || {
+                    ref_handle.run(image_region);
+                });
+            }
         }
 
         let mut cache = match state {
@@ -598,6 +612,10 @@ impl RenderContext {
     fn spawn_renderer(&self, index: usize) {
         if !self.pool.is_multithreaded() {
             // Frame rendering will run immediately, this is not we want.
+            return;
+        }
+
+        if !Self::can_render_in_background(&self.frames[index]) {
             return;
         }
 
